@@ -30,6 +30,9 @@ var zzFloatClasses = []float64{math.NaN(), math.Inf(1), math.Inf(-1), 0, math.Co
 
 func zzJQ(name string, mode int) any {
 	kinds := 9
+	if mode == zzFull {
+		kinds = 10 // + scalar JQValue wrappers (what decode values of scalars look like to a function)
+	}
 	switch mode {
 	case zzSmall:
 		if vrt.Choice(name+".kind", 2) == 0 {
@@ -89,8 +92,23 @@ func zzJQ(name string, mode int) any {
 		return string(bs)
 	case 6:
 		return []any{zzJQ(name+".elem", zzElem)}
+	case 9:
+		switch vrt.Choice(name+".wrapped", 4) {
+		case 0:
+			return gojqx.Null{}
+		case 1:
+			return gojqx.Boolean(vrt.Bool(name + ".wbool"))
+		case 2:
+			return gojqx.Number{V: vrt.Int(name + ".wint")}
+		default:
+			return gojqx.String([]rune{'a'})
+		}
 	case 7:
 		key := "a"
+		if mode == zzFull {
+			// input objects: also the empty key and a key that looks like an XML attribute
+			key = []string{"a", "", "@b"}[vrt.Choice(name+".key", 3)]
+		}
 		if mode == zzOpts {
 			// option objects: one member, named like the members of fq's option structs
 			keys := []string{"a", "indent", "unit", "pad_to_units", "keep_range", "encoding", "comma", "comment", "name", "seq", "array", "attribute_prefix"}
